@@ -189,7 +189,8 @@ StepOp(i) == <<"s", i, bpos[i]>>
 Finish(i, o) == /\ fout' = [fout EXCEPT ![i] = o] /\ wph' = [wph EXCEPT ![i] = "done"] /\ active' = active - 1
 
 \* would create_checkpoint reject an update for operation `op` whose parent is `par` ?
-Rejected(op, par) == op \in pdone \/ (FixOrphanParent /\ par \in pdone)
+\* (fixed code: also when the parent is marked, or is the completed context itself)
+Rejected(op, par) == op \in pdone \/ (FixOrphanParent /\ (par \in pdone \/ (par = <<"p">> /\ parentSent)))
 
 BSet(i, r, sb, p, f, w, a, l, k) ==
   /\ reg' = r /\ sub' = [sub EXCEPT ![i] = sb] /\ bpos' = [bpos EXCEPT ![i] = p] /\ fout' = [fout EXCEPT ![i] = f]
